@@ -11,7 +11,7 @@
    [run … = Ok argv] — the tool reached exec.Command (it does, by C20_one_invocation, whenever
    PackageNameFromPath succeeds).                                                             *)
 From Coq Require Import String List Bool.
-From GT Require Import ProtoModel ProtoProofs.
+From GT Require Import ProtoModel ProtoProofs ProtoJudge ProtoParse.
 Import ListNotations.
 Local Open Scope string_scope.
 
@@ -83,6 +83,14 @@ Theorem C20_checked : forall pkg_of cfg argv,
   /\ (forall pl, mappings_of pl argv = spec_mappings pkg_of cfg pl).
 Proof. exact run_checked. Qed.
 
+(* the judge of the correspondence run parses the recorded strings; on rendered argument vectors
+   (segments without '/', mapping keys without '=', files not starting with '-') that parser
+   gives back exactly the compared observables *)
+Theorem C20_judge_parser_faithful : forall cwd argv,
+  Forall arg_ok argv ->
+  obs_of_args cwd (map (parse_arg cwd) (map render_arg argv)) = obs_of_args cwd argv.
+Proof. exact parse_render_obs. Qed.
+
 (* ------------------------------------------------------------------ non-vacuity *)
 Definition ex_root : node :=
   Dir "" [Dir "w" [Dir "m" [File "go.mod" false true;
@@ -151,3 +159,4 @@ Print Assumptions C20_mappings_scope.
 Print Assumptions C20_at_most_one_invocation.
 Print Assumptions C20_one_invocation.
 Print Assumptions C20_checked.
+Print Assumptions C20_judge_parser_faithful.
